@@ -376,7 +376,12 @@ pub fn structural_diff(pristine: &Dump, damaged: &Dump) -> Vec<String> {
     let check_not_true = |map: &HashMap<&str, &Leaf>, path: &str| -> bool {
         !matches!(map.get(path), Some(Leaf::Val(v)) if v == "true")
     };
+    // integrity-check answers are not structure: they are expected to change (C04's subject)
+    let is_check = |path: &str| path == "check" || path.ends_with("/check");
     for (path, pl) in &pristine.0 {
+        if is_check(path) {
+            continue;
+        }
         match dmap.get(path.as_str()) {
             None => {
                 if !covered_by_err(path, &dmap) {
@@ -408,7 +413,7 @@ pub fn structural_diff(pristine: &Dump, damaged: &Dump) -> Vec<String> {
         }
     }
     for (path, dl) in &damaged.0 {
-        if pmap.contains_key(path.as_str()) || dl.is_err() {
+        if pmap.contains_key(path.as_str()) || dl.is_err() || is_check(path) {
             continue;
         }
         diffs.push(format!("{path}: new leaf {} not in the pristine dump", dl.short()));
